@@ -879,6 +879,55 @@ def negative_cases(ctx):
                 ctx.viol(f"negative:{style}:error-does-not-name-it:{cell}", f"error does not name {name!r}: {o.exc_msg[:200]}", common.witness(f, klass="negative"))
 
 
+def json_flat_group_forms(ctx):
+    """Surveys built from JSON (the builder route) in which ONE group carries the legacy flat flag while the survey does not: the group's children are
+    lifted into its parent in the instance, and every bind, control and substituted reference names the lifted node."""
+    from pyxform.builder import create_survey_element_from_dict
+    k = 0
+    for sec in ("group", "repeat"):
+        for depth in (1, 2):
+            for ref_from in ("inside", "beside", "outside"):
+                k += 1
+                if not ctx.mine(k):
+                    continue
+                inner = [{"type": "text", "name": "b", "label": "B"}]
+                if ref_from == "inside":
+                    inner.append({"type": "calculate", "name": "c", "bind": {"calculate": "${b} + ${a}"}})
+                node = {"type": "group", "name": "g", "label": "G", "flat": True, "children": inner}
+                for d_ in range(depth - 1):
+                    node = {"type": "group", "name": f"mid{d_}", "label": "M", "children": [node]}
+                kids = [node] + ([{"type": "calculate", "name": "c", "bind": {"calculate": "${b} + ${a}"}}] if ref_from == "beside" else [])
+                top = [{"type": "text", "name": "a", "label": "A"}, {"type": sec, "name": "r", "label": "R", "children": kids}]
+                if ref_from == "outside":
+                    top.append({"type": "calculate", "name": "c", "bind": {"calculate": "${b} + ${a}"}})
+                d = {"type": "survey", "name": "data", "id_string": "j", "title": "j", "children": top}
+                ctx.case(sig=f"json-flat-group|{sec}|{depth}|{ref_from}")
+                ctx.ctr("json_flat_group_forms")
+                wit = {"klass": "json-flat", "json": d}
+                try:
+                    p = xf.Parsed(create_survey_element_from_dict(d).to_xml(validate=False, pretty_print=False))
+                except Exception as e:  # noqa: BLE001
+                    ctx.viol(f"json-flat-group:raised:{type(e).__name__}", str(e)[:300], wit)
+                    continue
+                mids = "".join(f"/mid{d_}" for d_ in reversed(range(depth - 1)))
+                b_path = f"/data/r{mids}/b"
+                c_path = {"inside": f"/data/r{mids}/c", "beside": "/data/r/c", "outside": "/data/c"}[ref_from]
+                live = [n for n in p.resolve(b_path) if not any(p.is_template(a_) for a_ in [n] + list(n.iterancestors()))]
+                if len(live) != 1:
+                    ctx.viol("json-flat-group:lifted-node-missing", f"{b_path} names {len(live)} nodes outside templates", wit)
+                    continue
+                binds = p.bind_map()
+                for ns_ in binds:
+                    if not p.resolve(ns_):
+                        ctx.viol("json-flat-group:bind-names-no-node", f"bind {ns_} names no instance node (the flat group's children live in its parent)", wit)
+                calc = (binds.get(c_path) or [None])[0]
+                got = None if calc is None else (calc.get("calculate") or "").split("+")[0].strip()
+                ctx.ctr("paths_judged")
+                res = got if (got or "").startswith("/") else (resolve_relative(c_path, got) if got else None)
+                if res != b_path:
+                    ctx.viol("json-flat-group:reference-reaches-another-node", f"${{b}} written {ref_from} the flat group became {got!r}, which from {c_path} reaches {res!r}; the node is {b_path!r}", wit)
+
+
 def form_root_name_cases(ctx):
     """${name} names questions, groups and repeats - not the form. A reference to the form's own root name is a reference to nothing (refused like
     any unknown name) unless a question is called that, in which case it means the question."""
@@ -982,6 +1031,7 @@ def run_shard(ctx):
         form = gen.gen_form(rng, cfg)
         check_form(ctx, form, "random", common.feature_sig(form))
     negative_cases(ctx)
+    json_flat_group_forms(ctx)
     form_root_name_cases(ctx)
     ctx.ctr("hook_evals", counters.get("subst", 0))
     ctx.ctr("hook_reference_parent_calls", counters.get("subst_reference_parent", 0))
@@ -996,6 +1046,9 @@ def replay(w):
             return
         if wit.get("klass") == "form-root-name":
             form_root_name_cases(ctx)  # small and deterministic: run the family whole
+            return
+        if wit.get("klass") == "json-flat":
+            json_flat_group_forms(ctx)
             return
         form = common.form_from_witness(wit)
         if wit.get("klass") == "negative":
